@@ -204,6 +204,16 @@ func run(repo, dir string, seed uint64, nunits, nvalues int, cfg idlgen.Config, 
 				Expected: "thriftgo exit 0, output parses and compiles, all structs found", Observed: map[string]interface{}{"exit": u.Exit, "stderr": firstLines(u.Stderr, 5), "parse": u.ParseErrors, "build": u.BuildErrors}})
 		}
 	}
+	for i := range b.Units {
+		for _, e := range b.Units[i].Registry {
+			for _, te := range e.TagErrors {
+				fmt.Printf("TAG MISMATCH %s:%d %s.%s: %s\n", b.Units[i].Key, e.Sidx, e.Pkg, e.GoType, te)
+				out.Fail(vl.OracleFail{Key: fmt.Sprintf("tag:%s:%d:%s", b.Units[i].Key, e.Sidx, te), What: "thrift struct tag disagrees with the schema",
+					Input: map[string]interface{}{"unit": b.Units[i].Key, "type": e.Pkg + "." + e.GoType, "idl_dir": b.Units[i].IDLDir}, Observed: te})
+				badUnits++
+			}
+		}
+	}
 	if chk, err := b.Check(); err != nil || !strings.Contains(chk, " bad 0") {
 		fmt.Println("driver -check:", chk, err)
 		out.Fail(vl.OracleFail{Key: "registry", What: "driver registry self check", Observed: chk})
@@ -286,6 +296,16 @@ func run(repo, dir string, seed uint64, nunits, nvalues int, cfg idlgen.Config, 
 			exp := "err"
 			if c.expect != nil {
 				exp = c.expect.String()
+			}
+			if fails <= 3 && (c.what == "W" || c.what == "R") && c.value != nil {
+				// shrink: re-evaluate the same oracle on simpler values through fresh driver runs
+				small := valgen.Shrink(c.unit.Schema, c.sidx, c.value, func(v *values.Value) bool {
+					return oracleOnValue(b, c.unit, c.sidx, c.what, v) != ""
+				}, 150)
+				if sl, sa, sm := replayLine(b, c.unit, c.sidx, c.what, small); sm != "" {
+					fmt.Printf("  shrunk: %.300s\n  got: %.300s\n  why: %.300s\n", sl, sa, sm)
+					line, ans, msg = sl, sa, sm
+				}
 			}
 			out.Fail(vl.OracleFail{Key: line, What: c.what + ": " + msg,
 				Input:    map[string]interface{}{"unit": c.unit.Key, "options": c.unit.Options, "backend": c.unit.Backend, "schema": c.unit.SchemaLines(), "op": line, "idl_dir": c.unit.IDLDir},
@@ -406,6 +426,30 @@ func genOps(r *vl.Rng, u *batch.UnitInfo, sidx int, key string, v *values.Value,
 		fs := append(append([]refcodec.RawField{}, fields[:pos]...), fields[pos+1:]...)
 		add("R "+key+" "+hex.EncodeToString(refcodec.Join(fs)), &check{unit: u, sidx: sidx, what: "R-required", value: v, wantErr: true})
 	}
+}
+
+// replayLine builds the W or R op for value v, runs it and evaluates the oracle.
+func replayLine(b *batch.Built, u *batch.UnitInfo, sidx int, what string, v *values.Value) (line, ans, msg string) {
+	var got *check
+	var gotLine string
+	genOps(vl.NewRng(1), u, sidx, fmt.Sprintf("%s:%d", u.Key, sidx), v, func(l string, c *check) {
+		if c != nil && c.what == what && got == nil {
+			got, gotLine = c, l
+		}
+	}, nil)
+	if got == nil || got.skip != "" {
+		return "", "", ""
+	}
+	answers, err := b.RunLines([]string{gotLine})
+	if err != nil || len(answers) != 1 {
+		return "", "", ""
+	}
+	return gotLine, answers[0], verdict(got, answers[0])
+}
+
+func oracleOnValue(b *batch.Built, u *batch.UnitInfo, sidx int, what string, v *values.Value) string {
+	_, _, msg := replayLine(b, u, sidx, what, v)
+	return msg
 }
 
 // verdict evaluates the oracle for one answered op; "" = fine.
